@@ -283,10 +283,8 @@ func (r *Run) Violation(sub, signature, message string, c any) bool {
 	if err != nil {
 		raw, _ = json.Marshal(fmt.Sprintf("%+v", c))
 	}
-	dir := filepath.Join(r.Env.Root, "replays")
-	os.MkdirAll(dir, 0o755)
-	name := fmt.Sprintf("%s-%016x.json", r.Property, Hash64([]byte(sub), []byte(signature)))
-	path := filepath.Join(dir, name)
+	path := r.ReplayPath(sub, signature)
+	os.MkdirAll(filepath.Dir(path), 0o755)
 	rf := ReplayFile{Property: r.Property, Sub: sub, Signature: signature, Message: message, Case: raw}
 	data, _ := json.MarshalIndent(rf, "", " ")
 	os.WriteFile(path, data, 0o644)
@@ -303,6 +301,12 @@ func (r *Run) Violation(sub, signature, message string, c any) bool {
 	r.vioSeen[signature] = true
 	r.violations = append(r.violations, Violation{Property: r.Property, Sub: sub, Signature: signature, Message: message, Replay: path})
 	return true
+}
+
+// ReplayPath is where the replay file of a violation signature is written.
+func (r *Run) ReplayPath(sub, signature string) string {
+	name := fmt.Sprintf("%s-%016x.json", r.Property, Hash64([]byte(sub), []byte(signature)))
+	return filepath.Join(r.Env.Root, "replays", name)
 }
 
 // Violations returns the number of recorded violations.
